@@ -616,12 +616,12 @@ impl HostSide {
                 if has("ATIME_NOW") {
                     tv[0].tv_nsec = libc::UTIME_NOW;
                 } else if has("ATIME") {
-                    tv[0] = libc::timespec { tv_sec: u(a, "atime") as i64, tv_nsec: 0 };
+                    tv[0] = libc::timespec { tv_sec: u(a, "atime") as i64, tv_nsec: u(a, "atime_ns") as i64 };
                 }
                 if has("MTIME_NOW") {
                     tv[1].tv_nsec = libc::UTIME_NOW;
                 } else if has("MTIME") {
-                    tv[1] = libc::timespec { tv_sec: u(a, "mtime") as i64, tv_nsec: 0 };
+                    tv[1] = libc::timespec { tv_sec: u(a, "mtime") as i64, tv_nsec: u(a, "mtime_ns") as i64 };
                 }
                 let r = match hfd {
                     Some(h) => libc::futimens(h, tv.as_ptr()),
